@@ -1,7 +1,7 @@
 """Which properties are claimed, at what level, and why the others are not."""
 
 HOOK_COMMITS = []
-FIX_COMMITS = ["5a7ea92", "968480f", "81560c0", "dd9d1dc", "30a1d27", "d05b8f1", "483ac36", "3ec4792", "3944e47", "ae7798f", "050b368", "8bc95ce", "d5cf2b7", "6953efe", "1247e95", "4d49515", "6f570af"]
+FIX_COMMITS = ["5a7ea92", "968480f", "81560c0", "dd9d1dc", "30a1d27", "d05b8f1", "483ac36", "3ec4792", "3944e47", "ae7798f", "050b368", "8bc95ce", "d5cf2b7", "6953efe", "1247e95", "4d49515", "6f570af", "59d7027", "904a9ec"]
 
 _PURE = "pure function of its arguments (no storage, stream, clock, retry, schedule or fault in the statement or the anchored code): deciding it means generating inputs, which is not deterministic simulation (DESIGN.md section 6)"
 
@@ -18,6 +18,12 @@ NOT_APPLICABLE = {
 NOT_BUILT = {}
 
 CLAIMED = {
+    "C35": {
+        "level": "exploration",
+        "text": "Generated native 2a histories (files, dirs incl. empty, symlinks, exec-only changes, renames, deletes, merges) pushed lossy into a git repository on the simulated store in one go or tip by tip with a Dict/Index/Sqlite SHA-map cache kept, re-opened or cold per push, optionally with a crash/transport error at a seeded store op of cache or target followed by a re-push from a fresh process, then fetched back; and git-origin histories (dulwich) imported and exported again. Per revision: pushed objects == from-scratch _tree_to_objects == a format-only conversion, no dangling tree entries, stable commit SHAs across cache states, original SHAs reproduced, round-trip trees equal modulo empty directories. Sampling, not proof.",
+        "note": "Cache selection is routed by the check; native names ASCII; commit SHAs judged for git-origin only; stale ref locks removed before the re-push; unusual file modes rare; 6 cases per forked run; two import defects fixed in /repo.",
+        "technique": "deterministic simulation: differential export oracle (incremental vs from-scratch vs independent) and round-trip oracle over real push/fetch code on simulated stores with crash/error injection at the transport seam",
+    },
     "C13": {
         "level": "fault_enumeration",
         "text": "Per seeded transform (direct TreeTransform scripts; revert, merge, switch, shelve, unshelve on seeded edits; 2a and git trees) a dry pass records every file-system call of apply() at the os seam; each call index (quick: seeded sample <=12, thorough: all) is re-executed with that call failing (errno from EACCES/ENOSPC/EIO/EXDEV/ENOTEMPTY); the reopened tree must equal S0 or S1 as a whole, S0 for failures before commit, S1 metadata for failures while discarding, and the next transform must be possible.",
